@@ -273,7 +273,7 @@ def run(prog: Program, rep, thorough: bool) -> None:
     leak = sorted(x for x in gd_uses if x.split('.')[0] in rec_derived)
     cd = cfg.control_dependence()
     ctrl = {t for t, _lab in cd[gnode.id]}
-    ctrl_bad = [cfg.nodes[t] for t in ctrl if cfg.nodes[t] is not F.loop_head and t not in LB.tests]
+    ctrl_bad = [cfg.nodes[t] for t in ctrl if cfg.nodes[t] not in F.loop_controls and t not in LB.tests]
     if leak or ctrl_bad:
         why = f'reads {leak}' if leak else f'runs only under `{ctrl_bad[0].text()[:50]}`'
         rep.fail('C04.R2', tc.path, gnode.line, F.func.qualname, 'guard-depends',
